@@ -66,6 +66,10 @@ CHECKS = {
          "Seeded orders of open (default / fail-fast / skip-timeout), write+commit, read, close and kill among 2-4 simulated processes on one journaled directory (separate object graphs and descriptors, real flock on tmpfs, fake clock for the lock time-out), with torn journal tails and stale indexes planted between writers; invariants after every operation: at most one exclusive instance, contended opens are read-only or ErrDatabaseLocked as requested, commits through read-only instances fail, instances only show roots some writer wrote, and the simulated OS's op log attributes no create/write/truncate/rename/unlink to a process holding a read-only instance.",
          "Processes share one address space; a kill falls between operations and releases descriptors and locks (crash points inside an operation are C03's subject). LOCK-file creation and fsync are not counted as modifications. dbfactory's singleton cache is not in the loop (stores are constructed directly).",
          "deterministic simulation: multi-process S0 schedules over the real store with real flock, OS-level write attribution", "DESIGN.md §6.1 C41", "dsim-store"),
+ "C42": ("exploration",
+         "Seeded search over interleavings of 2-4 clients on LocalBlobstore (separate instances on one directory, file-operation granularity, emulated blocking flock, simulated nanosecond mtimes as versions) and InMemoryBlobstore (call granularity): Get / CheckAndPutManifest histories are checked with porcupine against a versioned register and every version must read back with the contents written under it; byte ranges (prefix, inner, suffix, negative offsets) and Concatenate ride along against a byte-slice model; a third of the runs put NewNoConjoinBSStore on top and run the C02 committer + fresh-reader workload with the C02 oracle.",
+         "The git-backed and cloud blobstores are not covered (need a git subprocess / network service outside the simulator). mtime-as-version is asserted for a monotone clock with nanosecond stamps only. Sampling of schedules.",
+         "deterministic simulation: seeded S1 scheduler over real blobstores + porcupine linearizability check against a versioned register", "DESIGN.md §6.1 C42", "dsim-store"),
 }
 
 def main():
